@@ -99,8 +99,13 @@ func (t *ltr) leanType(ty types.Type, n ast.Node) string {
 		switch u.Obj().Name() {
 		case "Rank":
 			return "Rank"
-		case "Sequential", "ListLike", "ArrayLike", "IteratorLike", "SetLike":
+		case "Sequential", "ListLike", "ArrayLike", "SetLike":
 			return "List α" // an iterator is what it still has to deliver
+		case "IteratorLike":
+			if t.tg.slices == "Slice" {
+				return "Slice"
+			}
+			return "List α"
 		case "ArrayClassLike", "ListClassLike", "CollatorLike":
 			return "Unit"
 		}
@@ -1101,6 +1106,12 @@ var listClassCalls = map[string]callSpec{
 
 var arrayClassCalls = map[string]callSpec{}
 
+// array_.GetIterator: an iterator is represented by the slice it walks over (`Iterator[V]().MakeFromArray(a)` keeps `a`)
+var arrayIterCalls = map[string]callSpec{
+	"$.AsArray":                      {kind: "opt", tmpl: "arrayAsArray v mem fuel", sets: []string{"_", "mem"}},
+	"IteratorClassLike.MakeFromArray": {kind: "pure", tmpl: "%1"},
+}
+
 var rankerParams = "{σ : Type} (ranker : σ → α → α → Rank × σ)"
 
 var loopTargets = []*ltarget{
@@ -1228,6 +1239,8 @@ var loopTargets = []*ltarget{
 		params: "", args: "", calls: listClassCalls, slices: "List α"},
 	{file: "LoopsList.lean", pkg: "collection", recv: "listClass_", name: "Concatenate", lean: "listConcatenate",
 		params: "", args: "", calls: listClassCalls, slices: "List α"},
+	{file: "LoopsArray.lean", pkg: "collection", recv: "array_", name: "GetIterator", lean: "arrayGetIterator",
+		params: "(v : Slice)", args: "v", state: []string{"mem"}, calls: arrayIterCalls, slices: "Slice", resTy: "Slice"},
 	{file: "LoopsArray.lean", pkg: "collection", recv: "arrayClass_", name: "Make", lean: "arrayClassMake",
 		params: "", args: "", state: []string{"mem"}, calls: arrayClassCalls, slices: "Slice", resTy: "Slice"},
 	{file: "LoopsArray.lean", pkg: "collection", recv: "arrayClass_", name: "MakeFromArray", lean: "arrayClassMakeFromArray",
